@@ -76,9 +76,15 @@ func vhSig(full bool) *hotstuffpb.QuorumSignature {
 	case k == 7:
 		return &hotstuffpb.QuorumSignature{Sig: &hotstuffpb.QuorumSignature_EDDSASigs{EDDSASigs: &hotstuffpb.EDDSAMultiSignature{Sigs: []*hotstuffpb.EDDSASignature{
 			{Signer: nondetU32("signer"), Sig: []byte{nondetU8("byte")}}}}}}
-	default:
-		vassume(k == 8)
+	case k == 8:
 		return &hotstuffpb.QuorumSignature{Sig: &hotstuffpb.QuorumSignature_EDDSASigs{}}
+	case k == 9:
+		// the BLS variant of the oneof with bytes that cannot be a compressed point (wrong length);
+		// the receiver's own scheme does not matter for decoding
+		return &hotstuffpb.QuorumSignature{Sig: &hotstuffpb.QuorumSignature_BLS12Sig{BLS12Sig: &hotstuffpb.BLS12AggregateSignature{Sig: []byte{nondetU8("byte")}, Participants: []byte{0x05}}}}
+	default:
+		vassume(k == 10)
+		return &hotstuffpb.QuorumSignature{Sig: &hotstuffpb.QuorumSignature_BLS12Sig{}}
 	}
 }
 
